@@ -66,7 +66,7 @@ def split_trace(path, outdir, prefix, max_lines=2500):
     idx = 0
     with open(path) as f:
         for line in f:
-            is_reset = line.startswith('{"ev":{"name":"reset"')
+            is_reset = line.startswith('{"ev":{"name":"reset"') or line.startswith('{"ev":{"name":"restore"')
             if cur is None or (is_reset and n >= max_lines):
                 if cur:
                     cur.close()
@@ -137,9 +137,25 @@ def history_prefix(chunk, lineno):
             if i > lineno:
                 break
             lines.append(json.loads(line))
-    start = max(i for i, ln in enumerate(lines) if ln["ev"]["name"] == "reset")
+    start = max(i for i, ln in enumerate(lines) if ln["ev"]["name"] in ("reset", "restore"))
     evs = [ln["ev"] for ln in lines[start:]]
+    if evs[0]["name"] == "restore":
+        # exhaustive search (S4): the restored node is reached by the recorded path from the file's initial state
+        reset = first_reset(chunk)
+        return {"reset": reset, "ops": list(evs[0].get("path") or []) + evs[1:]}, lines[start:]
     return {"reset": evs[0], "ops": evs[1:]}, lines[start:]
+
+
+def first_reset(chunk):
+    """the reset line of the trace file a chunk was cut from (chunks of one file share their prefix)"""
+    d, name = os.path.split(chunk)
+    for f in sorted(os.listdir(d)):
+        if f.startswith(name.split("-")[0] + "-") and f.endswith(".ndjson"):
+            with open(os.path.join(d, f)) as fh:
+                ev = json.loads(fh.readline())["ev"]
+            if ev["name"] == "reset":
+                return ev
+    raise MachineryError("no reset line found for " + chunk)
 
 
 # ---------------------------------------------------------------------------------------------
